@@ -1,8 +1,484 @@
-//! C07 — not implemented yet (stub).
-use crate::engine::Opts;
-pub fn main(_opts: &Opts) -> i32 {
-    eprintln!("C07: check not implemented");
-    2
+//! C07 — isomorphism test: no false negatives, no blindness to ground differences.
+//!
+//! Positive twin: bijective blank-node renaming everywhere (nested quoted triples, graph names)
+//! + statement shuffle + other container => `true`, both ways. Negative twins (one ground term
+//! changed, statement added/removed, two blank nodes merged, one split): the answer must be
+//! symmetric, `true` if the exact search (`iso_exact`) finds an isomorphism, and `false`
+//! whenever sizes, blank-node counts or the blanked-out statement multisets differ.
+//! Nothing else is demanded (the documented contract allows false positives).
+use crate::engine::*;
+use crate::gen::*;
+use crate::iso;
+use crate::model::*;
+use crate::stores::*;
+use proptest::prelude::*;
+use serde::{Deserialize, Serialize};
+use sophia_isomorphism::{isomorphic_datasets, isomorphic_graphs};
+
+#[derive(Clone, Debug, Serialize, Deserialize)]
+pub enum Neg {
+    /// replace the first ground atom found in quad i (searching from position `pos`) by another term
+    ChangeGround(usize, usize, MT),
+    AddQuad(MQ),
+    RemoveQuad(usize),
+    /// rename blank node #b to blank node #a
+    Merge(usize, usize),
+    /// in quad i, give the first blank node occurrence a fresh label
+    Split(usize),
+    /// exchange the first blank node occurrence of quad i with that of quad j (keeps sizes,
+    /// blank node count and blanked statements: only symmetry is demanded, unless still isomorphic)
+    SwapBnodes(usize, usize),
+    /// no mutation: a second, independently relabelled copy
+    Copy,
+}
+
+#[derive(Clone, Debug, Serialize, Deserialize)]
+pub struct Case {
+    pub quads: Vec<MQ>,
+    pub as_graph: bool,
+    pub salt: u64,
+    pub swaps: Vec<usize>,
+    pub cont_a: u8,
+    pub cont_b: u8,
+    pub neg: Neg,
+    pub neg_salt: u64,
+}
+
+pub struct C07;
+
+pub const DS_CONT: &[&str] = &["Vec<Spog>", "HashSet<Spog>", "FastDataset", "BTreeSet<Gspo>", "LightDataset"];
+pub const GR_CONT: &[&str] = &["Vec<[T;3]>", "HashSet<[T;3]>", "FastGraph", "BTreeSet<[T;3]>", "LightGraph"];
+
+macro_rules! with_ds {
+    ($idx:expr, $qs:expr, $d:ident, $body:expr) => {
+        match ($idx as usize) % 5 {
+            0 => {
+                let $d: VecSpog = d_from($qs).expect("collect");
+                $body
+            }
+            1 => {
+                let $d: HashSpog = d_from($qs).expect("collect");
+                $body
+            }
+            2 => {
+                let $d: FastDataset = d_from($qs).expect("collect");
+                $body
+            }
+            3 => {
+                let $d: BTreeGspo = d_from($qs).expect("collect");
+                $body
+            }
+            _ => {
+                let $d: LightDataset = d_from($qs).expect("collect");
+                $body
+            }
+        }
+    };
+}
+macro_rules! with_gr {
+    ($idx:expr, $qs:expr, $d:ident, $body:expr) => {
+        match ($idx as usize) % 5 {
+            0 => {
+                let $d: VecTriples = g_from($qs).expect("collect");
+                $body
+            }
+            1 => {
+                let $d: HashTriples = g_from($qs).expect("collect");
+                $body
+            }
+            2 => {
+                let $d: FastGraph = g_from($qs).expect("collect");
+                $body
+            }
+            3 => {
+                let $d: BTreeTriples = g_from($qs).expect("collect");
+                $body
+            }
+            _ => {
+                let $d: LightGraph = g_from($qs).expect("collect");
+                $body
+            }
+        }
+    };
+}
+
+/// the real answer; Err = panic or stream error
+fn real_iso(as_graph: bool, ca: u8, a: &[MQ], cb: u8, b: &[MQ]) -> Result<bool, String> {
+    let r = catch(|| {
+        if as_graph {
+            with_gr!(ca, a, g1, with_gr!(cb, b, g2, isomorphic_graphs(&g1, &g2).map_err(|e| format!("{e:?}"))))
+        } else {
+            with_ds!(ca, a, d1, with_ds!(cb, b, d2, isomorphic_datasets(&d1, &d2).map_err(|e| format!("{e:?}"))))
+        }
+    });
+    match r {
+        Ok(Ok(v)) => Ok(v),
+        Ok(Err(e)) => Err(format!("error: {e}")),
+        Err(p) => Err(format!("panic: {p}")),
+    }
+}
+
+fn blank_out(t: &MT) -> MT {
+    t.map_bnodes(&|_| "_".to_string())
+}
+fn blanked(qs: &[MQ]) -> Vec<MQ> {
+    let mut v: Vec<MQ> = qs.iter().map(|q| MQ::new(blank_out(&q.s), blank_out(&q.p), blank_out(&q.o), q.g.as_ref().map(blank_out))).collect();
+    v.sort();
+    v
+}
+
+/// the three conditions under which the statement demands `false`
+fn must_be_false(a: &[MQ], b: &[MQ]) -> Option<&'static str> {
+    if a.len() != b.len() {
+        return Some("different-size");
+    }
+    if all_bnodes(a).len() != all_bnodes(b).len() {
+        return Some("different-bnode-count");
+    }
+    if blanked(a) != blanked(b) {
+        return Some("different-blanked-statements");
+    }
+    None
+}
+
+fn trigger(a: &[MQ], b: &[MQ]) -> &'static str {
+    let nested = |qs: &[MQ]| qs.iter().any(|q| q.terms().iter().any(|t| t.is_triple() && t.has_bnode()));
+    let bgraph = |qs: &[MQ]| qs.iter().any(|q| q.g.as_ref().map(|g| g.is_bnode()).unwrap_or(false));
+    if nested(a) || nested(b) {
+        "bnode-in-quoted-triple"
+    } else if bgraph(a) || bgraph(b) {
+        "blank-graph-name"
+    } else {
+        "plain"
+    }
+}
+
+fn prep(qs: &[MQ], as_graph: bool) -> Vec<MQ> {
+    let v: Vec<MQ> = if as_graph { qs.iter().map(|q| MQ::new(q.s.clone(), q.p.clone(), q.o.clone(), None)).collect() } else { qs.to_vec() };
+    // a copy "of itself" is a set of statements: no duplicates under term equality, and a single
+    // spelling per language tag (the stores compare tags case-insensitively)
+    crate::c06::normalise_dataset(v)
+}
+
+fn first_ground_atom_replace(t: &MT, new: &MT, done: &mut bool) -> MT {
+    if *done {
+        return t.clone();
+    }
+    match t {
+        MT::Bnode(_) => t.clone(),
+        MT::Triple(tr) => {
+            let s = first_ground_atom_replace(&tr[0], new, done);
+            let p = first_ground_atom_replace(&tr[1], new, done);
+            let o = first_ground_atom_replace(&tr[2], new, done);
+            MT::triple(s, p, o)
+        }
+        other => {
+            if other.same_repr(new) {
+                other.clone()
+            } else {
+                *done = true;
+                new.clone()
+            }
+        }
+    }
+}
+fn first_bnode_replace(t: &MT, fresh: &str, done: &mut bool) -> MT {
+    if *done {
+        return t.clone();
+    }
+    match t {
+        MT::Bnode(_) => {
+            *done = true;
+            MT::bn(fresh)
+        }
+        MT::Triple(tr) => {
+            let s = first_bnode_replace(&tr[0], fresh, done);
+            let p = first_bnode_replace(&tr[1], fresh, done);
+            let o = first_bnode_replace(&tr[2], fresh, done);
+            MT::triple(s, p, o)
+        }
+        other => other.clone(),
+    }
+}
+
+fn apply_neg(a: &[MQ], neg: &Neg) -> (Vec<MQ>, &'static str) {
+    let mut out = a.to_vec();
+    let n = out.len();
+    let labels = all_bnodes(a);
+    let kind = match neg {
+        Neg::Copy => "copy",
+        Neg::ChangeGround(i, pos, t) => {
+            if n > 0 {
+                let q = &mut out[i % n];
+                let mut done = false;
+                for k in 0..4 {
+                    match (pos + k) % 4 {
+                        0 => q.s = first_ground_atom_replace(&q.s, t, &mut done),
+                        1 => q.p = first_ground_atom_replace(&q.p, t, &mut done),
+                        2 => q.o = first_ground_atom_replace(&q.o, t, &mut done),
+                        _ => {
+                            if let Some(g) = &q.g {
+                                q.g = Some(first_ground_atom_replace(g, t, &mut done))
+                            }
+                        }
+                    }
+                }
+            }
+            "change-ground-term"
+        }
+        Neg::AddQuad(q) => {
+            out.push(q.clone());
+            "add-statement"
+        }
+        Neg::RemoveQuad(i) => {
+            if n > 0 {
+                out.remove(i % n);
+            }
+            "remove-statement"
+        }
+        Neg::Merge(x, y) => {
+            if labels.len() >= 2 {
+                let (x, y) = (labels[x % labels.len()].clone(), labels[y % labels.len()].clone());
+                out = out.iter().map(|q| q.map_bnodes(&|l| if l == y { x.clone() } else { l.to_string() })).collect();
+            }
+            "merge-bnodes"
+        }
+        Neg::SwapBnodes(i, j) => {
+            let with_b: Vec<usize> = (0..n).filter(|&k| !out[k].bnodes().is_empty()).collect();
+            if with_b.len() >= 2 {
+                let (i, j) = (with_b[i % with_b.len()], with_b[j % with_b.len()]);
+                let (li, lj) = (out[i].bnodes()[0].to_string(), out[j].bnodes()[0].to_string());
+                let put = |q: &MQ, l: &str| {
+                    let mut done = false;
+                    let s = first_bnode_replace(&q.s, l, &mut done);
+                    let p = first_bnode_replace(&q.p, l, &mut done);
+                    let o = first_bnode_replace(&q.o, l, &mut done);
+                    let g = q.g.as_ref().map(|g| first_bnode_replace(g, l, &mut done));
+                    MQ::new(s, p, o, g)
+                };
+                out[i] = put(&out[i].clone(), &lj);
+                out[j] = put(&out[j].clone(), &li);
+            }
+            "swap-bnodes"
+        }
+        Neg::Split(i) => {
+            if n > 0 {
+                let q = &mut out[i % n];
+                let mut done = false;
+                q.s = first_bnode_replace(&q.s, "fresh", &mut done);
+                q.p = first_bnode_replace(&q.p, "fresh", &mut done);
+                q.o = first_bnode_replace(&q.o, "fresh", &mut done);
+                if let Some(g) = &q.g {
+                    q.g = Some(first_bnode_replace(g, "fresh", &mut done));
+                }
+            }
+            "split-bnode"
+        }
+    };
+    (out, kind)
+}
+
+fn cfg() -> TermCfg {
+    TermCfg {
+        iris: vec!["http://x/a".into(), "http://x/b".into(), "http://x/ns#p".into(), rdf("type")],
+        bnodes: vec!["a".into(), "b".into(), "c0".into(), "b1".into(), "a.b".into()],
+        lex: pick(vec!["".to_string(), "a".to_string(), "42".to_string()]),
+        tags: vec!["en".into(), "EN".into(), "fr-056".into()],
+        dts: vec![xsd("string"), xsd("integer")],
+        vars: vec!["v".into(), "w".into()],
+        allow_bnode: true,
+        allow_literal: true,
+        allow_triple: true,
+        allow_var: true,
+        max_depth: 2,
+    }
+}
+
+/// quads around a blank-node shape, some of them mentioning the nodes inside quoted triples
+fn shaped() -> BoxedStrategy<Vec<MQ>> {
+    (shape(6), 0..3u8, prop::collection::vec((0..8usize, 0..8usize, 0..4u8), 0..4)).prop_map(|(sh, g, nest)| {
+        let gname = match g {
+            0 => None,
+            1 => Some(MT::iri("http://x/g")),
+            _ => Some(MT::bn("n0")),
+        };
+        let mut qs = sh.quads("n", "http://x/ns#p", gname);
+        let (n, _) = sh.arcs();
+        for (i, j, k) in nest {
+            let x = MT::bn(format!("n{}", i % n.max(1)));
+            let y = MT::bn(format!("n{}", j % n.max(1)));
+            let tr = MT::triple(x.clone(), MT::iri("http://x/a"), y.clone());
+            qs.push(match k {
+                0 => MQ::new(tr, MT::iri("http://x/b"), MT::iri("http://x/a"), None),
+                1 => MQ::new(x, MT::iri("http://x/b"), tr, None),
+                2 => MQ::new(MT::iri("http://x/a"), MT::iri("http://x/b"), MT::triple(MT::iri("http://x/a"), MT::iri("http://x/b"), tr), None),
+                _ => MQ::new(y, MT::iri("http://x/b"), MT::iri("http://x/a"), Some(tr)),
+            });
+        }
+        qs
+    })
+    .boxed()
+}
+
+impl Check for C07 {
+    type Case = Case;
+    const ID: &'static str = "C07";
+    fn rule() -> String {
+        "generalized datasets/graphs (<=20 statements; IRIs, literals, variables, blank nodes in every position incl. predicate and graph name, quoted triples to depth 2 containing blank nodes; random quads over small pools and/or a blank-node shape with nested mentions) compared with (1) a bijectively relabelled, shuffled copy in another container (5 dataset / 5 graph container types) and (2) a relabelled mutant (ground term changed, statement added/removed, blank nodes merged/split). Non-trivial = >=2 blank nodes, or a blank node inside a quoted triple or as graph name; distinct by hash of the case."
+            .into()
+    }
+    fn assumptions() -> Vec<String> {
+        vec![
+            "statements are de-duplicated under term equality before being stored (a Vec container holding a statement twice is not 'a copy of itself' of a set container)".into(),
+            "term equality is sophia's documented one (language tags ASCII-case-insensitive): a difference in tag case only is not a 'difference once blank nodes are blanked out'".into(),
+            "`true` is demanded for mutants only when the exact search finds an isomorphism; `false` only under the three conditions of the statement".into(),
+        ]
+    }
+    fn cases(tier: Tier) -> u32 {
+        tier.pick(100_000, 3_000_000)
+    }
+    fn strategy(_tier: Tier) -> BoxedStrategy<Case> {
+        let c = cfg();
+        let rnd = c.quads(true, true, 10);
+        let quads = prop_oneof![
+            3 => rnd.clone(),
+            2 => shaped(),
+            3 => (shaped(), c.quads(true, true, 5)).prop_map(|(mut a, b)| {
+                a.extend(b);
+                a
+            }),
+        ];
+        let neg = prop_oneof![
+            3 => (0..32usize, 0..4usize, prop_oneof![Just(MT::iri("http://x/zz")), Just(MT::iri("http://x/a")), Just(MT::string("a")), Just(MT::lang("a", "en")), Just(MT::var("v"))]).prop_map(|(i, p, t)| Neg::ChangeGround(i, p, t)),
+            2 => c.quad(true, true).prop_map(Neg::AddQuad),
+            2 => (0..32usize).prop_map(Neg::RemoveQuad),
+            2 => (0..16usize, 0..16usize).prop_map(|(a, b)| Neg::Merge(a, b)),
+            2 => (0..32usize).prop_map(Neg::Split),
+            3 => (0..32usize, 0..32usize).prop_map(|(a, b)| Neg::SwapBnodes(a, b)),
+            1 => Just(Neg::Copy),
+        ];
+        (quads, prop::bool::weighted(0.3), any::<u64>(), prop::collection::vec(0..64usize, 0..24), 0..5u8, 0..5u8, neg, any::<u64>())
+            .prop_map(|(quads, as_graph, salt, swaps, cont_a, cont_b, neg, neg_salt)| Case { quads, as_graph, salt, swaps, cont_a, cont_b, neg, neg_salt })
+            .boxed()
+    }
+    fn show(case: &Case) -> serde_json::Value {
+        let a = prep(&case.quads, case.as_graph);
+        let (b, kind) = apply_neg(&a, &case.neg);
+        serde_json::json!({
+            "A": a.iter().map(MQ::show).collect::<Vec<_>>(),
+            "api": if case.as_graph { "isomorphic_graphs" } else { "isomorphic_datasets" },
+            "containers": [case.cont_a % 5, case.cont_b % 5],
+            "mutant": kind,
+            "B": prep(&b, case.as_graph).iter().map(MQ::show).collect::<Vec<_>>(),
+        })
+    }
+    fn run(case: &Case, ctx: &mut Ctx) {
+        let a = prep(&case.quads, case.as_graph);
+        let names = if case.as_graph { GR_CONT } else { DS_CONT };
+        ctx.class(if case.as_graph { "api:isomorphic_graphs" } else { "api:isomorphic_datasets" });
+        ctx.class(format!("containers:{}+{}", names[case.cont_a as usize % 5], names[case.cont_b as usize % 5]));
+        let nb = all_bnodes(&a).len();
+        let nested = a.iter().any(|q| q.terms().iter().any(|t| t.is_triple() && t.has_bnode()));
+        let bgraph = a.iter().any(|q| q.g.as_ref().map(|g| g.has_bnode()).unwrap_or(false));
+        if nb >= 2 || nested || bgraph {
+            ctx.nontrivial();
+        }
+        ctx.class(format!("bnodes:{}", match nb { 0 => "0", 1 => "1", 2..=3 => "2-3", 4..=6 => "4-6", _ => "7+" }));
+        if nested {
+            ctx.class("bnode-in-quoted-triple");
+        }
+        if bgraph {
+            ctx.class("bnode-in-graph-name");
+        }
+        if a.iter().any(|q| q.p.has_bnode()) {
+            ctx.class("bnode-in-predicate");
+        }
+        if a.iter().any(|q| q.terms().iter().any(|t| t.has_var())) {
+            ctx.class("has-variable");
+        }
+        if a.iter().any(|q| q.terms().iter().any(|t| t.depth() >= 2)) {
+            ctx.class("nesting-depth>=2");
+        }
+
+        // ---- positive twin
+        let a2 = permute(relabel(&a, case.salt), &case.swaps);
+        let trig = trigger(&a, &a2);
+        let r1 = real_iso(case.as_graph, case.cont_a, &a, case.cont_b, &a2);
+        let r2 = real_iso(case.as_graph, case.cont_b, &a2, case.cont_a, &a);
+        for (dir, r) in [("A vs copy", &r1), ("copy vs A", &r2)] {
+            match r {
+                Ok(true) => {}
+                Ok(false) => {
+                    ctx.fail(
+                        format!("iso/false-negative/{trig}"),
+                        format!("{dir}: a bijectively relabelled, shuffled copy is reported NOT isomorphic\n A ({}):\n{}\n copy ({}):\n{}", names[case.cont_a as usize % 5], show_quads(&a), names[case.cont_b as usize % 5], show_quads(&a2)),
+                    );
+                    return;
+                }
+                Err(e) => {
+                    ctx.fail(format!("iso/failure/{trig}"), format!("{dir}: {e}\n A:\n{}", show_quads(&a)));
+                    return;
+                }
+            }
+        }
+        // self comparison in the same container value
+        match real_iso(case.as_graph, case.cont_a, &a, case.cont_a, &a) {
+            Ok(true) => {}
+            other => {
+                ctx.fail(format!("iso/not-reflexive/{trig}"), format!("A vs A -> {other:?}\n{}", show_quads(&a)));
+                return;
+            }
+        }
+
+        // ---- negative twin
+        let (b0, kind) = apply_neg(&a, &case.neg);
+        let b = permute(relabel(&prep(&b0, case.as_graph), case.neg_salt), &case.swaps);
+        ctx.class(format!("mutant:{kind}"));
+        let trig = trigger(&a, &b);
+        let r_ab = real_iso(case.as_graph, case.cont_a, &a, case.cont_b, &b);
+        let r_ba = real_iso(case.as_graph, case.cont_b, &b, case.cont_a, &a);
+        let (r_ab, r_ba) = match (r_ab, r_ba) {
+            (Ok(x), Ok(y)) => (x, y),
+            (x, y) => {
+                ctx.fail(format!("iso/failure/{trig}"), format!("A vs B -> {x:?}; B vs A -> {y:?}\n A:\n{}\n B:\n{}", show_quads(&a), show_quads(&b)));
+                return;
+            }
+        };
+        if r_ab != r_ba {
+            ctx.fail(format!("iso/asymmetric/{kind}/{trig}"), format!("iso(A,B)={r_ab} but iso(B,A)={r_ba}\n A:\n{}\n B:\n{}", show_quads(&a), show_quads(&b)));
+            return;
+        }
+        let demand_false = must_be_false(&a, &b);
+        let truth = iso::iso_exact_budget(&a, &b, Some(2_000_000));
+        match (demand_false, truth) {
+            (Some(why), Some(true)) => panic!("harness inconsistency: {why} but iso_exact says isomorphic"),
+            (Some(why), _) => {
+                ctx.class(format!("mutant-must-be-false:{why}"));
+                if r_ab {
+                    ctx.fail(
+                        format!("iso/blind-to-difference/{why}/{kind}/{trig}"),
+                        format!("reported isomorphic although the two differ ({why})\n A:\n{}\n B:\n{}\n {}", show_quads(&a), show_quads(&b), iso::diff_summary(&a, &b)),
+                    );
+                }
+            }
+            (None, Some(true)) => {
+                ctx.class("mutant-isomorphic");
+                if !r_ab {
+                    ctx.fail(format!("iso/false-negative/{trig}"), format!("the exact search finds an isomorphism but the answer is false\n A:\n{}\n B:\n{}", show_quads(&a), show_quads(&b)));
+                }
+            }
+            (None, Some(false)) => {
+                // same size, same blank-node count, same blanked statements, not isomorphic:
+                // the contract allows either answer
+                ctx.class(if r_ab { "mutant-undemanded:false-positive" } else { "mutant-undemanded:true-negative" });
+            }
+            (None, None) => ctx.class("iso-budget-exceeded"),
+        }
+    }
+}
+
+pub fn main(opts: &Opts) -> i32 {
+    drive::<C07>(opts)
 }
 pub fn worker(_args: &[String]) -> i32 {
     2
